@@ -209,8 +209,18 @@ func checkC15(cfg *core.Config) int {
 	}
 	funcs := map[string][]string{}
 	pr.rn.Run(listJobs, func(e runlib.Event) {
-		if e.Kind == "funcs" {
+		switch e.Kind {
+		case "funcs":
 			funcs[e.Prog] = e.Keys
+		case "abort":
+			// the process died while listing functions, or while initialising the packages compiled
+			// into it (package-level variables of the generated code)
+			files := pr.pl.ProgramFiles(e.Prog)
+			files["abort-output.txt"] = e.Message
+			rep.Violate(core.Violation{Signature: "rand-abort:package-initialisation", Case: e.Prog, Files: files,
+				Message: fmt.Sprintf("the process compiled with the generated random-data code died during %s: %s", e.What, core.Trunc(e.Message, 1200))})
+		case "harness-error", "inconclusive":
+			pr.stdEvent(e)
 		}
 	})
 	var jobs []runlib.Job
